@@ -43,6 +43,7 @@ func main() {
 	out := flag.String("out", "trace.ndjson", "trace output")
 	seed := flag.Int64("seed", 1, "seed")
 	start := flag.Int("start", 0, "first run index (restart after a crash)")
+	count := flag.Int("count", 0, "at most this many runs in this process (0 = all); the caller continues with -start")
 	only := flag.String("only", "", "run only this JSON-encoded run {h,k,kind} (replay)")
 	bursts := flag.Int("bursts", 0, "additional random multi-fault runs per history")
 	scratch := flag.String("scratch", "", "scratch dir")
@@ -131,7 +132,7 @@ func main() {
 		}
 	}
 	n := 0
-	for ri := *start; ri < len(runs); ri++ {
+	for ri := *start; ri < len(runs) && (*count == 0 || ri < *start+*count); ri++ {
 		if *progress != "" {
 			os.WriteFile(*progress, []byte(fmt.Sprintf("%d %s\n", ri, mustJSON(runs[ri]))), 0600)
 		}
